@@ -17,7 +17,7 @@ TypeOfRole(r) == CASE r = "feature" -> "FeatureLine" [] r = "rule" -> "RuleLine"
 TitleList(D, r) == IF r \in {"scenario", "scenarioOutline"} THEN D.scenario \o D.scenarioOutline ELSE ListOf(D, r)
 Seps == << <<>>, <<32>>, <<9>>, <<32, 32>> >>
 Bullets == << <<42>>, <<43>>, <<45>>, <<>>, <<49, 46>>, <<35>> >>
-Inds == << <<>>, <<32>>, <<32, 32, 32>> >>
+Inds == << <<>>, <<32>>, <<32, 32, 32>>, <<32, 32, 32, 32>>, <<9, 32, 32, 32, 32, 32>> >>
 VARIABLES vD, vKind, vRole, vK, vDepth, vSep, vInd, vSeen
 mkvars == <<vD, vKind, vRole, vK, vDepth, vSep, vInd, vSeen>>
 Init == /\ vD \in DOMAIN Dialects /\ vSeen = FALSE /\ vInd \in 1..Len(Inds) /\ vSep \in 1..Len(Seps)
@@ -28,13 +28,16 @@ Spec == Init /\ [][Next]_mkvars
 D == Dialects[vD]
 Kw == ListOf(D, vRole)[vK]
 Hashes(n) == [j \in 1..n |-> HASHC]
-TestLine == IF vKind = "title" THEN Inds[vInd] \o Hashes(vDepth) \o Seps[vSep] \o Kw \o <<COLON, 32, 32, 116, 32, 120, 32, LF>>
+\* the title text varies with the case (plain, ending in '#', containing '#'), chosen deterministically
+Titles == << <<116, 32, 120>>, <<67, 35>>, <<35, 32, 35>> >>
+TitleOf == Titles[((vK + vDepth + vInd) % 3) + 1]
+TestLine == IF vKind = "title" THEN Inds[vInd] \o Hashes(vDepth) \o Seps[vSep] \o Kw \o <<COLON, 32, 32>> \o TitleOf \o <<32, LF>>
             ELSE Inds[vInd] \o Bullets[vDepth] \o Seps[vSep] \o Kw \o <<116, 32, 120, 32, 32, LF>>
 Res == IF vKind = "title" THEN MdTitle(TestLine, TypeOfRole(vRole), TitleList(D, vRole)) ELSE MdStep(TestLine, D)
 \* "one to six '#' and a blank followed by a ... keyword and ':' is recognised in that role with the keyword, the trimmed title and the column of the keyword"
 Inv_Header == (vSeen /\ vKind = "title") =>
    /\ (Res.ok <=> (vDepth \in 1..6 /\ Len(Seps[vSep]) = 1))
-   /\ (Res.ok => /\ Res.type = TypeOfRole(vRole) /\ Res.text = <<116, 32, 120>>
+   /\ (Res.ok => /\ Res.type = TypeOfRole(vRole) /\ Res.text = TitleOf
                  /\ StartsWith(From(TestLine, Res.col), Res.kw \o <<COLON>>) /\ InSeq(Res.kw, TitleList(D, vRole))
                  /\ Res.col = Len(Inds[vInd]) + vDepth + 2)
 \* "a list item ('*', '+' or '-') followed by a step keyword is recognised as a step"; "lines lacking the ... bullet prefix are not"
